@@ -430,7 +430,7 @@ def run_pool_once(case, prefix):
     from mc import sched as S
     g = G.Graph({"nodes": case["nodes"]}, name_tag="g")
     try:
-        s = S.Scheduler(prefix, target_codes(), pool_size=case["size"], max_points=200000, opcode_codes=opcode_codes())
+        s = S.Scheduler(prefix, target_codes(), pool_size=case["size"], max_points=20000, opcode_codes=opcode_codes())
         g.hook = lambda ev: s.point(ev[:2])
         b = make_broker(g, case) if case["shared"] else None
         graph = g.explicit_graph()
@@ -442,6 +442,10 @@ def run_pool_once(case, prefix):
         err = None
         try:
             brokers = s.run_main(lambda: dr.run_all(graph, b, pool))
+        except (S.Deadlock, S.HorizonExceeded) as ex:
+            # not a harness problem: under THIS schedule the real code deadlocks / never finishes
+            brokers = []
+            err = "does not terminate under this schedule: %s" % type(ex).__name__
         except S.SchedulerAbort:
             raise
         except Exception as ex:
@@ -532,7 +536,7 @@ def run_evaluator_once(case, prefix):
     g = G.Graph({"nodes": case["nodes"]}, name_tag="g")
     saved = insights.get_pool
     try:
-        s = S.Scheduler(prefix, target_codes(), pool_size=case["size"], max_points=200000, opcode_codes=opcode_codes())
+        s = S.Scheduler(prefix, target_codes(), pool_size=case["size"], max_points=20000, opcode_codes=opcode_codes())
         g.hook = lambda ev: s.point(ev[:2])
 
         @contextlib.contextmanager
@@ -544,6 +548,9 @@ def run_evaluator_once(case, prefix):
         err = None
         try:
             resp = s.run_main(lambda: ev.process(graph, parallel=True))
+        except (S.Deadlock, S.HorizonExceeded) as ex:
+            resp = {}
+            err = "does not terminate under this schedule: %s" % type(ex).__name__
         except S.SchedulerAbort:
             raise
         except Exception as ex:
